@@ -27,7 +27,7 @@ from vf.refdc.core import DCConfig, DCCore
 ID = "C10"
 LEVEL = "exploration"
 RULE = (
-    "histories over a 14-letter alphabet {load R1, load R2, unprotect blob@(R,SID,L0,p) for 7 coordinates spanning two L1s, 31-edges, two L0s, two SIDs "
+    "histories over a 16-letter alphabet {load R1, load R2, unprotect blob@(R,SID,L0,p) for 9 coordinates spanning two L1s, 31-edges, two L0s, two SIDs "
     "and two root keys, protect now with/without root key id (2 SIDs), DC policy -> public / -> seed}: all histories to depth 3 (quick) / 4 (thorough) "
     "plus seeded random histories to depth 30 (and a stratified depth-4 sample in quick); schedules: k in 2..4 concurrent async calls on one loop "
     "sharing the cache, every completion order; 8 threads with a 1us switch interval. distinct = (history) or (call mix, completion order); "
@@ -53,6 +53,8 @@ LETTERS = [
     ("U", 0, SID_A, L0A, (5, 7)),
     ("U", 0, SID_A, L0A, (5, 0)),
     ("U", 0, SID_A, L0A, (31, 31)),
+    ("U", 0, SID_A, L0A, (5, 31)),
+    ("U", 0, SID_A, L0A, (0, 9)),
     ("U", 0, SID_A, L0B, (3, 2)),
     ("U", 0, SID_B, L0A, (5, 7)),
     ("U", 1, SID_A, L0A, (5, 7)),
@@ -127,12 +129,14 @@ class Model:
             self.have[k] = p
 
 
-def run_history(rec: Recorder, w: World, history: t.Sequence[tuple], label: str, loop=None) -> None:
-    """Executes one history on a fresh shared cache; checks every call."""
+def run_history(rec: Recorder, w: World, history: t.Sequence[tuple], label: str, loop=None, two_caches: bool = False) -> None:
+    """Executes one history on a fresh shared cache; checks every call.  With two_caches the letters alternate
+    (seeded) between two independent KeyCache objects, each with its own model: state must not leak between them."""
     import dpapi_ng
 
-    cache = dpapi_ng.KeyCache()
-    model = Model(w)
+    caches = [dpapi_ng.KeyCache(), dpapi_ng.KeyCache()]
+    models = [Model(w), Model(w)]
+    cache, model = caches[0], models[0]
     w.cfg.policy = "seed"
     rpc_envelope_seen = False
     hit_after_rpc = False
@@ -141,6 +145,10 @@ def run_history(rec: Recorder, w: World, history: t.Sequence[tuple], label: str,
     with mem.installed(), mon.CLOCK.at_ns(mon.filetime_to_ns(NOW_FT)):
         for idx, letter in enumerate(history):
             kind = letter[0]
+            if two_caches:
+                which = (idx * 7 + len(history)) % 3 % 2
+                cache, model = caches[which], models[which]
+                model.policy = w.cfg.policy
             if kind == "load":
                 online.load_into_cache(cache, w.rkids[letter[1]], w.rks[letter[1]])
                 model.roots.add(letter[1])
@@ -149,10 +157,11 @@ def run_history(rec: Recorder, w: World, history: t.Sequence[tuple], label: str,
                 continue
             if kind == "policy":
                 w.cfg.policy = letter[1]
-                model.policy = letter[1]
+                for m_ in models:
+                    m_.policy = letter[1]
                 continue
             before = w.core.getkey_count
-            wit = {"history": wit_hist, "index": idx, "label": label}
+            wit = {"history": wit_hist, "index": idx, "label": label, "two_caches": two_caches}
             use_async = loop is not None and (idx + len(history)) % 3 == 0
             mon.KDFS.n, mon.KDFS.limit = 0, KDF_BUDGET
             try:
@@ -262,8 +271,10 @@ def run_random(spec, rec: Recorder):
         for i in range(spec["n"]):
             depth = w.rng.choice([5, 6, 8, 12, 20, 30])
             # bias: RPC-obtained envelopes first, root key load in the middle or late
-            h = [LETTERS[w.rng.choice([2, 3, 4, 5, 6, 7, 8, 9, 10, 11, 2, 3, 0, 1, 12, 13])] for _ in range(depth)]
-            run_history(rec, w, h, "rand", loop)
+            h = [w.rng.choice(LETTERS + [l for l in LETTERS if l[0] == "U"]) for _ in range(depth)]
+            run_history(rec, w, h, "rand2" if i % 3 == 0 else "rand", loop, two_caches=(i % 3 == 0))
+            if i % 3 == 0:
+                rec.count("two_cache_histories")
         rec.sample({"kind": "random history", "depth": depth, "history": [str(x) for x in h]})
     finally:
         loop.close()
@@ -277,7 +288,7 @@ def run_async_orders(spec, rec: Recorder):
     w = World(spec)
     loop = asyncio.new_event_loop()
     asyncio.set_event_loop(loop)
-    call_letters = [LETTERS[i] for i in (2, 3, 4, 6, 7, 9, 10)]
+    call_letters = [l for l in LETTERS if l[0] in ("U", "P") and l[1] == 0][:9]
     try:
         for k in range(2, spec["kmax"] + 1):
             mixes = list(itertools.combinations_with_replacement(range(len(call_letters)), k))
@@ -436,7 +447,7 @@ def run_threads(spec, rec: Recorder):
             for ti in range(8):
                 ops = []
                 for _ in range(6):
-                    letter = LETTERS[w.rng.choice([2, 3, 4, 5, 6, 7, 9, 11])]
+                    letter = w.rng.choice([l for l in LETTERS if l[0] in ("U", "P") and l[1] == 0 and (l[0] == "U" or l[3])])
                     if letter[0] == "U":
                         blob, pt = w.blob(letter)
                         ops.append(("U", blob, pt))
@@ -503,7 +514,7 @@ def replay(body, rec: Recorder):
         mon.KDFS.install()
         w = World({"name": body["shard"], "seed": body["seed"]})
         h = [ast.literal_eval("(" + ", ".join(x) + ")") if False else _parse_letter(x) for x in w_["history"]]
-        run_history(rec, w, h, "replay", None)
+        run_history(rec, w, h, "replay", None, two_caches=bool(w_.get("two_caches")))
     else:
         specs = {s["name"]: s for s in plan(body["tier"], body["seed"])}
         run_shard(dict(specs[body["shard"]], seed=body["seed"], tier=body["tier"]), rec)
